@@ -83,8 +83,9 @@ def drive_generated(rng, sc):
 
 def shipped(name):
     import sismic.io
-    path = {'elevator': '/repo/docs/examples/elevator/elevator_contract.yaml',
-            'microwave': '/repo/docs/examples/microwave/microwave_with_contracts.yaml'}[name]
+    from common import REPO
+    path = {'elevator': REPO + '/docs/examples/elevator/elevator_contract.yaml',
+            'microwave': REPO + '/docs/examples/microwave/microwave_with_contracts.yaml'}[name]
     return lambda: sismic.io.import_from_yaml(filepath=path)
 
 
